@@ -139,6 +139,13 @@ def cli_flags_from_save(ctx, code, rs, name):
     if got != ref:
         return [{"sig": "C14:flags-not-from-save", "what": "--load without flags does not run with the saved skip_brute/all_lower: first lines %r vs %r"
                  % (got[:4], ref[:4]), "replay": {"ruleset": rs, "cli": "flags"}}], True
+    # the other direction: a session saved WITHOUT the flags, resumed with them on the command line, still runs as saved
+    ref2 = sorted(run(["-r", name, "-s", "ref2_" + name]))
+    run(["-r", name, "-s", "t_" + name, "-n", "1"])
+    got2 = sorted(run(["-r", name, "-s", "t_" + name, "--load", "--skip_brute", "--all_lower"]))
+    if got2 != ref2:
+        return [{"sig": "C14:flags-not-from-save", "what": "--load with --skip_brute --all_lower on a session saved without them does not run as saved: "
+                 "%d lines vs %d" % (len(got2), len(ref2)), "replay": {"ruleset": rs, "cli": "flags"}}], True
     return [], True
 
 
@@ -188,6 +195,7 @@ def run(ctx):
     for i in range(ctx.scale(3, 10)):
         rs = rulesets.gen_ruleset(ctx.rng, with_markov=True, max_bases=3, max_len=3)
         rs = place_markov(rs, ctx.rng, "first")
+        rs["omen_prob"] = [("0", 0.3), ("1", 0.2)]
         rs["name"] = "F%d" % i
         v, ran = cli_flags_from_save(ctx, code, rs, "F%d" % i)
         vio += v
